@@ -275,7 +275,7 @@ class CatNormal(Family):
         i = xs[0]
         lp = sum(np.where(i == k, math.log(p), 0.0) for k, p in enumerate(c["prior"]))
         mv = sum(np.where(i == k, m, 0.0) for k, m in enumerate(c["mv"]))
-        return lp + nlp(c["y"], mv, c["s"])
+        return lp + nlp(c["y"], mv + th.get("mu", 0.0), c["s"])
 
 
 class FlipThenNormal(Family):
